@@ -92,7 +92,17 @@ func (in *Interp) nilOf(v Value) (bdd.Node, bool) {
 type ModelFunc func(in *Interp, args []Value, guard bdd.Node, st *State, pos string) (Value, bool)
 
 // deferRec is one registered deferred call.
+// ChanInfo describes a channel made by the interpreted code.
+type ChanInfo struct {
+	Cap  uint64
+	Elem types.Type
+	Pos  string
+}
+
 type deferRec struct {
+	builtin  string    // a deferred builtin (close)
+	model    ModelFunc // a deferred library call that has a model
+	mux      *MuxV     // a deferred call of a function value with several alternatives
 	name     string
 	guard    bdd.Node // path predicate at registration
 	fn       *ssa.Function
@@ -204,6 +214,23 @@ type Interp struct {
 	// OnPoll answers a non-blocking poll of the Done channel of the named
 	// context with a fresh observation.
 	OnPoll func(dev string) bdd.Node
+	// Chans switches on the channel vocabulary (Run summary only): a channel
+	// the code makes is the value "chan#N"; receive, close and send on it and
+	// a blocking select over receives are events of the trace.  OnSelect
+	// returns the index of the alternative taken (a fresh choice), OnRecv the
+	// value received from the named channel.
+	Chans map[string]*ChanInfo
+	// OnOpaqueCall takes over a call of a function value that a library model
+	// handed out (named by the Opaque's Why).
+	OnOpaqueCall func(in *Interp, why string, args []Value, guard bdd.Node, st *State, pos string) (Value, bool)
+	deferDepth   int // > 0 while deferred calls are being run
+	// TouchLog, when set, collects the roots of everything loaded or stored.
+	TouchLog map[string]bool
+	OnSelect func(devs []string, guard bdd.Node, pos string) dom.BV
+	// OnPollChan answers a non-blocking poll of a channel the code made.
+	OnPollChan func(dev string, guard bdd.Node, pos string) bdd.Node
+	OnRecv     func(dev string, t types.Type, guard bdd.Node, pos string) Value
+	OnSend     func(dev string, v Value, guard bdd.Node, st *State, pos string)
 	// LoopCarried (second pass): per loop ID, the store locations to generalise
 	// at the loop header - typically the StoreChanged of a first pass - so that
 	// the one interpreted iteration stands for every iteration.
@@ -469,6 +496,9 @@ func (in *Interp) Load(st *State, pv Value, t types.Type, pos token.Pos) Value {
 }
 
 func (in *Interp) loadAt(st *State, root string, ri *rootInfo, path string, t types.Type) Value {
+	if in.TouchLog != nil {
+		in.TouchLog[root] = true
+	}
 	switch u := t.Underlying().(type) {
 	case *types.Struct:
 		s := &Struct{Fields: make([]Value, u.NumFields())}
@@ -542,6 +572,9 @@ func (in *Interp) Store(st *State, pv Value, t types.Type, v Value, g bdd.Node, 
 }
 
 func (in *Interp) storeAt(st *State, root string, ri *rootInfo, path string, t types.Type, v Value, g bdd.Node, pos token.Pos) {
+	if in.TouchLog != nil {
+		in.TouchLog[root] = true
+	}
 	switch u := t.Underlying().(type) {
 	case *types.Struct:
 		s, ok := v.(*Struct)
@@ -1198,7 +1231,74 @@ func (in *Interp) exec(fr *frame, instr ssa.Instruction, pred bdd.Node, st *Stat
 				return
 			}
 		}
+		if !x.Blocking && len(x.States) == 1 && x.States[0].Dir == types.RecvOnly && in.Chans != nil && in.OnPollChan != nil {
+			// the same poll on a channel the code made (nil: never ready)
+			alts := in.chanAlts(in.operand(fr, x.States[0].Chan), pred)
+			okAlts := len(alts) > 0
+			var name string
+			notNil := bdd.False
+			for _, a := range alts {
+				switch {
+				case a.name == "chan:nil":
+				case strings.HasPrefix(a.name, "chan#") && (name == "" || name == a.name):
+					name = a.name
+					notNil = in.C.M.Or(notNil, a.g)
+				default:
+					okAlts = false
+				}
+			}
+			if okAlts && name != "" {
+				ready := in.C.M.And(in.OnPollChan(name, pred, in.P.Pos(x.Pos())), in.C.M.Or(notNil, in.C.M.Not(pred)))
+				w := in.intWidth()
+				tup := x.Type().(*types.Tuple)
+				in.allocN++
+				t := &Tuple{Elems: []Value{C.Mux(ready, C.Const(w, 0), C.Const(w, ^uint64(0))), C.Atom(fmt.Sprintf("recvOk@%d", in.allocN), 1)}}
+				for i := 2; i < tup.Len(); i++ {
+					et := tup.At(i).Type()
+					if stt, isStruct := et.Underlying().(*types.Struct); (isStruct && stt.NumFields() == 0) || in.OnRecv == nil {
+						t.Elems = append(t.Elems, in.zero(et))
+					} else {
+						t.Elems = append(t.Elems, in.OnRecv(name, et, in.C.M.And(pred, ready), in.P.Pos(x.Pos())))
+					}
+				}
+				fr.vals[x] = t
+				return
+			}
+		}
+		if in.Chans != nil && in.OnSelect != nil {
+			if t, ok := in.selectRecv(fr, x, pred); ok {
+				fr.vals[x] = t
+				return
+			}
+		}
 		in.undecided(x.Pos(), "select statement outside the modelled form (a non-blocking poll of a context's Done channel)")
+	case *ssa.MakeChan:
+		if in.Chans == nil {
+			in.undecided(x.Pos(), "make(chan)")
+		}
+		sz, ok := in.operand(fr, x.Size).(dom.BV)
+		n, isc := uint64(0), false
+		if ok {
+			n, isc = sz.IsConst()
+		}
+		if !isc {
+			in.undecided(x.Pos(), "make(chan T, n) with a non-constant capacity")
+		}
+		in.allocN++
+		name := fmt.Sprintf("chan#%d", in.allocN)
+		in.Chans[name] = &ChanInfo{Cap: n, Elem: x.Type().Underlying().(*types.Chan).Elem(), Pos: in.P.Pos(x.Pos())}
+		fr.vals[x] = &Opaque{Why: name}
+	case *ssa.Send:
+		if in.Chans == nil || in.OnSend == nil {
+			in.undecided(x.Pos(), "channel send")
+		}
+		alts := in.chanAlts(in.operand(fr, x.Chan), pred)
+		if len(alts) != 1 || !strings.HasPrefix(alts[0].name, "chan#") {
+			in.undecided(x.Pos(), "send on a channel that is not one made by this code (or nil: blocks for ever)")
+		}
+		in.site("send on a closed channel", bdd.False) // (that nobody closes a channel that is sent on is the protocol's concern)
+		in.T.Emit(pred, "chan.send", alts[0].name, nil, 0, in.P.Pos(x.Pos()))
+		in.OnSend(alts[0].name, in.operand(fr, x.X), pred, st, in.P.Pos(x.Pos()))
 	case *ssa.Go:
 		if in.OnGo == nil {
 			in.undecided(x.Pos(), "go statement")
@@ -1223,6 +1323,12 @@ func (in *Interp) exec(fr *frame, instr ssa.Instruction, pred bdd.Node, st *Stat
 		d := deferRec{name: "func value", guard: pred}
 		if f := x.Call.StaticCallee(); f != nil {
 			d.name = f.String()
+			if h, ok := in.Models[f.String()]; ok && !load.InModule(f) && !x.Call.IsInvoke() {
+				d.model = h
+				for _, a := range x.Call.Args {
+					d.args = append(d.args, in.operand(fr, a))
+				}
+			}
 			if load.InModule(f) && f.Blocks != nil && !x.Call.IsInvoke() {
 				// a function of the module: interpreted when the deferred calls run
 				// (arguments and closure bindings are evaluated now, as Go does)
@@ -1236,10 +1342,19 @@ func (in *Interp) exec(fr *frame, instr ssa.Instruction, pred bdd.Node, st *Stat
 					d.args = append(d.args, in.operand(fr, a))
 				}
 			}
+		} else if b, ok := x.Call.Value.(*ssa.Builtin); ok && b.Name() == "close" && in.Chans != nil {
+			d.name, d.builtin = "close", "close"
+			d.args = []Value{in.operand(fr, x.Call.Args[0])}
 		} else if o, ok := in.operand(fr, x.Call.Value).(*Opaque); ok {
 			d.name = o.Why
 		} else if fv, ok := in.operand(fr, x.Call.Value).(*FuncV); ok && fv.Fn != nil && load.InModule(fv.Fn) && fv.Fn.Blocks != nil {
 			d.name, d.fn, d.bindings = fv.Fn.String(), fv.Fn, fv.Bindings
+			for _, a := range x.Call.Args {
+				d.args = append(d.args, in.operand(fr, a))
+			}
+		} else if mv, ok := in.operand(fr, x.Call.Value).(*MuxV); ok {
+			// one of several functions, depending on the state: each is run under its condition
+			d.name, d.mux = "func value (one of several)", mv
 			for _, a := range x.Call.Args {
 				d.args = append(d.args, in.operand(fr, a))
 			}
@@ -1253,11 +1368,30 @@ func (in *Interp) exec(fr *frame, instr ssa.Instruction, pred bdd.Node, st *Stat
 				continue
 			}
 			in.T.Emit(g, "deferred:"+d.name, "", nil, 0, in.P.Pos(x.Pos()))
+			if d.builtin == "close" {
+				in.closeChan(d.args[0], g, x.Pos())
+			}
+			if d.mux != nil {
+				in.deferDepth++
+				_, okAlt := in.callAlternatives(d.mux, d.args, g, st, x.Pos())
+				in.deferDepth--
+				if !okAlt {
+					in.undecided(x.Pos(), "deferred call of a function value that is not resolved")
+				}
+				in.curPred = pred
+			}
+			if d.model != nil {
+				if _, handled := d.model(in, d.args, g, st, in.P.Pos(x.Pos())); !handled {
+					in.undecided(x.Pos(), "deferred call of %s", d.name)
+				}
+			}
 			if d.fn != nil {
 				// the deferred function's effects (e.g. on named results) take place
 				// before the function returns; on the paths that did not register it
 				// the state is kept
+				in.deferDepth++
 				_, out := in.callBound(d.fn, d.args, d.bindings, g, st.Clone(), x.Pos())
+				in.deferDepth--
 				if g == pred {
 					*st = *out
 				} else {
@@ -1634,6 +1768,23 @@ func (in *Interp) unop(fr *frame, x *ssa.UnOp, pred bdd.Node, st *State) Value {
 			}
 			return in.zero(x.Type())
 		}
+		if in.Chans != nil && in.OnRecv != nil {
+			alts := in.chanAlts(v, pred)
+			if len(alts) == 1 && strings.HasPrefix(alts[0].name, "chan#") {
+				in.T.Emit(pred, "chan.recv", alts[0].name, nil, 0, in.P.Pos(x.Pos()))
+				et := x.Type()
+				if x.CommaOk {
+					et = x.Type().(*types.Tuple).At(0).Type()
+				}
+				val := in.OnRecv(alts[0].name, et, pred, in.P.Pos(x.Pos()))
+				if x.CommaOk {
+					in.allocN++
+					return &Tuple{Elems: []Value{val, in.C.Atom(fmt.Sprintf("recvOk@%d", in.allocN), 1)}}
+				}
+				return val
+			}
+			in.undecided(x.Pos(), "receive from a channel that is not one made by this code (or nil: blocks for ever)")
+		}
 	case token.NOT, token.XOR:
 		if bv, ok := v.(dom.BV); ok {
 			return in.C.Not(bv)
@@ -1918,6 +2069,11 @@ func (in *Interp) callInstr(fr *frame, x *ssa.Call, pred bdd.Node, st *State) Va
 				in.T.Emit(pred, "map.delete", m.Sym, []dom.BV{k}, 0, pos)
 				return nil
 			}
+		case "close":
+			if in.Chans != nil {
+				in.closeChan(args[0], pred, x.Pos())
+				return nil
+			}
 		case "copy":
 			if v, ok := in.copyBuiltin(args, pred, st, x); ok {
 				return v
@@ -1951,6 +2107,13 @@ func (in *Interp) callInstr(fr *frame, x *ssa.Call, pred bdd.Node, st *State) Va
 					}
 				}
 				each(mv)
+				return res
+			}
+		}
+		if o, isOpaque := callee.(*Opaque); isOpaque && in.OnOpaqueCall != nil {
+			// a function value handed out by a modelled library call (a CancelFunc)
+			if res, handled := in.OnOpaqueCall(in, o.Why, args, pred, st, pos); handled {
+				in.site("call of a nil function value", bdd.False)
 				return res
 			}
 		}
@@ -2834,3 +2997,123 @@ func (in *Interp) appendConcrete(args []Value, st *State, elemT types.Type, x *s
 	}
 	return &Slice{Root: r, Lo: 0, Len: in.C.Const(in.intWidth(), uint64(len(elems))), Nil: bdd.False}, true
 }
+
+type chanAlt struct {
+	name string
+	g    bdd.Node
+}
+
+// chanAlts resolves a channel value to the channels it can be under pred:
+// "chan#N" (made by the code), "done:<ctx>" (a context's Done channel) or
+// "chan:nil".
+func (in *Interp) chanAlts(v Value, pred bdd.Node) []chanAlt {
+	M := in.C.M
+	var out []chanAlt
+	var walk func(v Value, g bdd.Node) bool
+	walk = func(v Value, g bdd.Node) bool {
+		if g == bdd.False {
+			return true
+		}
+		switch x := v.(type) {
+		case *MuxV:
+			return walk(x.A, M.And(g, x.P)) && walk(x.B, M.And(g, M.Not(x.P)))
+		case *Opaque:
+			if strings.HasPrefix(x.Why, "chan#") || strings.HasPrefix(x.Why, "done:") || x.Why == "chan:nil" {
+				for i := range out {
+					if out[i].name == x.Why {
+						out[i].g = M.Or(out[i].g, g)
+						return true
+					}
+				}
+				out = append(out, chanAlt{x.Why, g})
+				return true
+			}
+		}
+		return false
+	}
+	if !walk(v, pred) {
+		return nil
+	}
+	return out
+}
+
+// closeChan: close(ch) as an event.  Closing a nil channel panics; closing a
+// channel twice panics too - the user of the events checks that the closes of
+// one channel exclude each other.
+func (in *Interp) closeChan(v Value, pred bdd.Node, pos token.Pos) {
+	alts := in.chanAlts(v, pred)
+	if alts == nil {
+		in.undecided(pos, "close of a channel that is not one made by this code")
+	}
+	nilG := bdd.False
+	for _, a := range alts {
+		if a.name == "chan:nil" {
+			nilG = a.g
+		}
+	}
+	in.site("close of a nil channel", nilG) // (closing twice is the protocol's concern: closes of one channel exclude each other)
+	for _, a := range alts {
+		switch {
+		case a.name == "chan:nil":
+		case strings.HasPrefix(a.name, "chan#"):
+			in.T.Emit(a.g, "chan.close", a.name, nil, 0, in.P.Pos(pos))
+		default:
+			in.undecided(pos, "close of %s", a.name)
+		}
+	}
+}
+
+// selectRecv: a blocking select whose alternatives are all receives.  Nil
+// channels are never ready; the alternative taken is a fresh choice among the
+// others (the event lists them in the order of the choice's values).
+func (in *Interp) selectRecv(fr *frame, x *ssa.Select, pred bdd.Node) (Value, bool) {
+	if !x.Blocking {
+		return nil, false
+	}
+	C := in.C
+	var names []string
+	for _, stt := range x.States {
+		if stt.Dir != types.RecvOnly {
+			return nil, false
+		}
+		alts := in.chanAlts(in.operand(fr, stt.Chan), pred)
+		if len(alts) != 1 || alts[0].name == "chan:nil" {
+			return nil, false // an alternative that may be nil: outside the modelled form
+		}
+		names = append(names, alts[0].name)
+	}
+	idx := in.OnSelect(names, pred, in.P.Pos(x.Pos()))
+	in.T.Emit(pred, "select", strings.Join(names, ","), []dom.BV{idx}, 0, in.P.Pos(x.Pos()))
+	tup := x.Type().(*types.Tuple)
+	in.allocN++
+	t := &Tuple{Elems: []Value{idx, C.Atom(fmt.Sprintf("recvOk@%d", in.allocN), 1)}}
+	k := 0
+	for i := 2; i < tup.Len(); i++ {
+		// the values received: one per receive alternative, in order
+		et := tup.At(i).Type()
+		if stt, isStruct := et.Underlying().(*types.Struct); (isStruct && stt.NumFields() == 0) || k >= len(names) || !strings.HasPrefix(names[k], "chan#") || in.OnRecv == nil {
+			t.Elems = append(t.Elems, in.zero(et))
+		} else {
+			t.Elems = append(t.Elems, in.OnRecv(names[k], et, C.M.And(pred, C.Eq(idx, C.Const(len(idx), uint64(k)))), in.P.Pos(x.Pos())))
+		}
+		k++
+	}
+	return t, true
+}
+
+// IntWidth is the width of Go's int on the target.
+func (in *Interp) IntWidth() int { return in.intWidth() }
+
+// InitValueOf returns the value the leaf root|path has when nothing has been
+// stored to it (ok is false when the leaf's type is unknown: never stored).
+func (in *Interp) InitValueOf(root, path string) (Value, bool) {
+	t, ok := in.leafT[key(root, path)]
+	ri := in.roots[root]
+	if !ok || ri == nil {
+		return nil, false
+	}
+	return in.initLeaf(root, ri, path, t), true
+}
+
+// InDeferred reports whether the interpreter is running a deferred call.
+func (in *Interp) InDeferred() bool { return in.deferDepth > 0 }
